@@ -51,7 +51,8 @@ DELAYS = [0.0, 0.001, 0.1, 0.1, 0.5, 1.0, 1.5, 3.0]
 def _gen_queue(rng, tier):
     handlers = []
     for _ in range(rng.randint(2, 9)):
-        kind = rng.choice(["sync", "sync", "wait", "wait", "wait_now", "async", "nested", "wait_post"])
+        kind = rng.choice(["sync", "sync", "wait", "wait", "wait_now", "async", "nested", "wait_post", "sync_false",
+                           "wait_false"])
         handlers.append([rng.choice(EVENTS), rng.choice([1, 1, 2, 2, 5, 10]), kind, rng.choice(DELAYS),
                          rng.choice(EVENTS)])
     posts = []
@@ -361,6 +362,14 @@ def _run_queue(case):
                     return
                 if kind == "sync":
                     return
+                if kind == "sync_false":
+                    # the result of a queue-event handler has no meaning: every handler must still run
+                    return False
+                if kind == "wait_false":
+                    do_wait(P, pid, hid, queue)
+                    st["last_clear_time"] = max(st["last_clear_time"], vm.now() + delay)
+                    vm.loop.call_later(delay, do_clear, P, pid, hid, queue)
+                    return False
                 if kind == "wait_now":
                     do_wait(P, pid, hid, queue)
                     do_clear(P, pid, hid, queue)
